@@ -292,7 +292,7 @@ func tagged(tag string, xs []string) sexp.Node {
 func (t *gType) sexp() sexp.Node {
 	switch t.Kind {
 	case "scalar":
-		return sexp.T("scalar", sexp.Str(t.Name), sexp.Bool(t.Builtin), names(t.Req), sexp.Str(t.Desc))
+		return sexp.T("scalar", sexp.Str(t.Name), sexp.Bool(t.Builtin), sexp.Bool(t.AcceptAll), names(t.Req), sexp.Str(t.Desc))
 	case "enum":
 		vs := []sexp.Node{}
 		for _, v := range t.Vals {
